@@ -212,15 +212,6 @@ def implField (impl key : String) : Option String :=
 
 abbrev Fail := String × String × String
 
-/-- classifier: the stream state printed by the driver shows a valid cut that is empty (start = end) -/
-def stuckOnEmptyCut (impl : String) : Bool :=
-  match implField impl "cuts=" with
-  | some ctext => (ctext.splitOn ",").any fun c =>
-      match c.splitOn ":" with
-      | [a, b] => a ≠ "-1" && a == b
-      | _ => false
-  | none => false
-
 /-- monitors shared by the per-datagram builders (rf / mf): the implementation's answer is judged
     against the spec of the configuration, not against the model -/
 def judgeDatagram (name : String) (src : List UInt8) (base : Nat) (lo : Int) (slice : List UInt8)
@@ -369,10 +360,19 @@ def step (s : St) (op impl : String) : St × StepOut :=
           if !carriesAt s.src 0 (intOf lo).toNat ((intOf lo).toNat + slice.length) [unhex (iw.getD 1 "-")] then
             fails := fails ++ [("qf_carries", "-", s!"tiling layout {frames} base={base}")]
         else fails := fails ++ [("qf_tiling_rejected", "-", s!"{impl} for tiling layout {frames}")]
+      -- ANY layout with non-negative fields, on ANY slice (a PTO probe, a retransmission, the tail of a
+      -- ClientHello hands the layout a shorter or empty share): no panic, nothing but ClientHello bytes
+      if layoutNonneg qfs && (base : Int) + maxLayoutOffset qfs + slice.length ≤ 4611686018427387903 then
+        if iw.headD "" == "PANIC" then
+          fails := fails ++ [("qf_panic", "-", s!"layout {frames} on a {slice.length} byte share")]
+        else if iw.headD "" == "ok" && trueBase == intOf lo then
+          if !noForeignBytes s.src (intOf lo).toNat ((intOf lo).toNat + slice.length) (unhex (iw.getD 1 "-")) then
+            fails := fails ++ [("qf_no_zero_extension", "-", s!"layout {frames} on a {slice.length} byte share announces bytes that are not ClientHello bytes")]
       return fails
     let tags := [match out with | .ok _ => "qf:ok" | .panic => "qf:panic" | _ => "qf:other"] ++
       (if tiles then ["qf:tiles"] else ["qf:nontiling"]) ++ (if qfs.isEmpty then ["qf:empty"] else []) ++
-      (if low ≠ 0 then ["qf:rebased"] else [])
+      (if low ≠ 0 then ["qf:rebased"] else []) ++
+      (if layoutNonneg qfs && !tiles then ["qf:short-share"] else [])
     (s, { model := fmtOut out, tags := tags, fails := fails })
   | ["rf", base, lo, n, cfg, draws] =>
     let base := natOf base
@@ -586,8 +586,7 @@ def step (s : St) (op impl : String) : St × StepOut :=
               if g.emptyStreak ≥ 2 && !g.drainJudged then
                 g := { g with drainJudged := true }
                 if !coversAll g.popped 0 g.written.length then
-                  let cls := if stuckOnEmptyCut impl then "empty_sni_cut_never_finishes" else "-"
-                  fails := fails ++ [("drain_complete", cls, s!"stream reports nothing to send but only {g.popped.length} frames of {g.written.length} bytes were released")]
+                  fails := fails ++ [("drain_complete", "-", s!"stream reports nothing to send but only {g.popped.length} frames of {g.written.length} bytes were released")]
           else
             let off := natOf h
             let data := unhex (iw.getD 1 "-")
@@ -611,7 +610,7 @@ def step (s : St) (op impl : String) : St × StepOut :=
         let b := hasData cs
         let fails : List Fail :=
           if iw.headD "" == "0" && s.g.client && s.g.completeCH && s.g.popped.isEmpty && !s.g.written.isEmpty then
-            [("hasdata_live", if s.g.sniPos == -1 && s.g.echPos > 0 && s.g.sniLen < 2 then "ech_without_sni_never_sent" else "-", "a complete ClientHello is queued but HasData reports false")]
+            [("hasdata_live", "-", "a complete ClientHello is queued but HasData reports false")]
           else []
         (s, { model := (if b then "1" else "0") ++ csSuffix (some cs), tags := ["cs:has"], fails := fails })
       | ["popall"] =>
